@@ -426,6 +426,10 @@ class NostrQuery(BaseModel):
     @field_validator("ids", "authors", "kinds")
     @classmethod
     def sort_fields(cls, values):
+        if values is None:
+            # an explicit null ("kinds": null) is an absent condition, as it is
+            # for since / until / limit
+            return values
         return sorted(set(values), reverse=True)
 
     @classmethod
